@@ -66,7 +66,16 @@ def cases(tier, seed):
     for p2, p3 in ((2, 2), (3, 2), (2, 3), (5, 2)):
         yield {"kind": "factor_merged", "p2": p2, "p3": p3, "which": ["t2_2"]}
     yield {"kind": "factor_merged", "p2": 3, "p3": 2, "which": ["t2_1", "t2_2"]}
+    # orbital energy numerators over the denominators of two amplitudes, the brackets
+    # entering with different weights (fraction cancellation inside reduce_expr)
+    for w1, w2, rest in ((0, 0, ""), (1, 1, ""), (2, 1, ""), (1, 2, ""), (3, 2, ""), (-1, 2, ""), (2, -3, ""),
+                         (1, 0, "k"), (2, 0, "k"), (0, 3, "i-a"), (2, 2, "k"), (4, 2, "i-a")):
+        yield {"kind": "reduce_weighted", "w": [w1, w2], "rest": rest}
     if tier == "thorough":
+        rng = random.Random(seed + 5)
+        for _ in range(30):
+            yield {"kind": "reduce_weighted", "w": [rng.randint(-4, 4), rng.randint(-4, 4)],
+                   "rest": rng.choice(["", "k", "i-a", "c"])}
         yield {"kind": "factor_roundtrip", "itmd": "t1_2", "extra": False}
         yield {"kind": "reduce", "itmd": "t1_2"}
         yield {"kind": "reduce", "itmd": "t2eri_3"}
@@ -153,7 +162,42 @@ def factor_long_mixed_check(case):
     return True, ""
 
 
+def reduce_weighted_check(case):
+    """X_ikac = sum_jb N t_ijab t_jkbc Y_jb with N = w1 D1 + w2 D2 (+ single orbital
+    energies): reduce_expr and expand_intermediates agree in value"""
+    t2 = Intermediates().available["t2_1"]
+    i, j, k, a, b, c = get_symbols("ijkabc")
+    e = {s.name: NonSymmetricTensor("e", (s,)) for s in (i, j, k, a, b, c)}
+    d1 = e["i"] + e["j"] - e["a"] - e["b"]
+    d2 = e["j"] + e["k"] - e["b"] - e["c"]
+    num = case["w"][0] * d1 + case["w"][1] * d2
+    for n, part in enumerate(case["rest"].replace("-", " -").split()):
+        num += -e[part[1:]] if part.startswith("-") else e[part]
+    if num == 0:
+        num = S.One
+    base = (t2.tensor(indices=(i, j, a, b), return_sympy=True) * t2.tensor(indices=(j, k, b, c), return_sympy=True)
+            * NonSymmetricTensor("Y", (j, b)))
+    tg = [i, k, a, c]
+    e0 = Expr(num * base, real=True, target_idx=tg)
+    expanded = e0.copy().expand_intermediates().expand()
+    try:
+        red = reduce_expr(e0.copy())
+    except RuntimeError as exc:
+        # numerators whose occupied / virtual energies carry both signs are refused
+        # explicitly (no result, nothing to compare)
+        if "Ambiguous signs" in str(exc):
+            return True, "refused: ambiguous signs"
+        raise
+    model = HFModel(13)
+    ok, d = same_value(expanded.sympy, red.sympy, tg, model)
+    if not ok:
+        return False, f"reduce_expr({e0}) = {str(red)[:400]} differs in value from the expansion: {d}"
+    return True, ""
+
+
 def check(case):
+    if case["kind"] == "reduce_weighted":
+        return reduce_weighted_check(case)
     if case["kind"] == "factor_power":
         return factor_power_check()
     if case["kind"] == "factor_long_mixed":
@@ -218,6 +262,6 @@ CHECKS = {
     "intermediates.consistency": {
         "function": "adcgen.intermediates:RegisteredIntermediate.expand_itmd", "cases": cases,
         "check": check,
-        "bound": "registered intermediates t2_1, t1_2, p0_2_oo/vv, t2eri_1/3, t2sq (thorough: + t2_2, t3_2, t2eri_2..7, A, B): step-wise vs full expansion, tensor expansion with other index names; factor(expand(.)) round trip for t2_1 and for the long intermediate t2_2 inside a product with one rescaled term (mixed prefactors), reduce_expr for t2_1 (with a free tensor) / p0_2_oo; real canonical HF model, sampled target assignments",
+        "bound": "registered intermediates t2_1, t1_2, p0_2_oo/vv, t2eri_1/3, t2sq (thorough: + t2_2, t3_2, t2eri_2..7, A, B): step-wise vs full expansion, tensor expansion with other index names; factor(expand(.)) round trip for t2_1 and for the long intermediate t2_2 inside a product with one rescaled term (mixed prefactors), reduce_expr for t2_1 (with a free tensor) / p0_2_oo and for sum_jb N t_ijab t_jkbc Y_jb with 12 (thorough 42) weighted orbital energy numerators N; real canonical HF model, sampled target assignments",
     },
 }
